@@ -157,12 +157,12 @@ Proof. induction cd as [|[[[succ der] pol] cnt] cd IH]; intros acc La Fk; cbn.
       by (rewrite vscale_length; apply snp_contrib_length; assumption).
     destruct (polarized && negb pol)%bool eqn:E.
     + destruct (IH acc La Fk') as [L1 G1]. split; [assumption|]. intros i. rewrite G1.
-      unfold cd_val; cbn. rewrite E. cbn. lra.
+      unfold cd_val; cbn. lra.
     + destruct (IH (vaddR acc (vscaleR (nofnat cnt) (snp_contrib projs succ der)))) as [L1 G1].
       * rewrite vadd_length; lia.
       * assumption.
       * split; [assumption|]. intros i. rewrite G1, get_vadd, get_vscale by lia.
-        unfold cd_val; cbn. rewrite E. cbn. unfold nofnat. numR. rewrite <- INR_IZR_INZ. lra. Qed.
+        unfold cd_val; cbn. unfold nofnat. numR. rewrite <- INR_IZR_INZ. lra. Qed.
 
 Lemma fcd_get projs polarized cd : Forall (fun e => key_ok (length projs) (fst e)) cd ->
   length (fcd_data (F:=R) cd projs polarized) = size (spec_shape projs) /\
@@ -182,12 +182,12 @@ Proof. destruct a as [[s1 d1] p1], b as [[s2 d2] p2]. cbn. intros E.
 Lemma cincr_val projs polarized k : forall cd i,
   cd_val projs polarized (cincr k cd) i =
   cd_val projs polarized cd i + (if row_used polarized k then row_get projs k i else 0).
-Proof. unfold cd_val. induction cd as [|[k' n] cd IH]; intros i; cbn.
-  - destruct (row_used polarized k); lra.
+Proof. unfold cd_val. induction cd as [|[k' n] cd IH]; intros i; cbn [lsum cincr fst snd].
+  - destruct (row_used polarized k); change (INR 1) with 1; lra.
   - destruct (ckey_eqb k' k) eqn:E.
-    + apply ckey_eqb_eq in E. subst k'. cbn. destruct (row_used polarized k); [|lra].
+    + apply ckey_eqb_eq in E. subst k'. cbn [lsum fst snd]. destruct (row_used polarized k); [|lra].
       rewrite S_INR. lra.
-    + cbn. rewrite IH. lra. Qed.
+    + cbn [lsum fst snd]. rewrite IH. lra. Qed.
 
 Lemma cincr_ok L k cd : key_ok L k -> Forall (fun e => key_ok L (fst e)) cd -> Forall (fun e => key_ok L (fst e)) (cincr k cd).
 Proof. intros Hk. induction 1 as [|[k' n] cd Hx Hf IH]; cbn; [repeat constructor; assumption|].
@@ -301,9 +301,8 @@ Theorem total_is_number_of_usable_snps : forall (dd : dict snp) pop_ids projs po
   = INR (length (filter (snp_counts pop_ids projs polarized) (map snd dd))).
 Proof. intros dd pop_ids projs polarized cd EL E.
   destruct (spectrum_is_sum_of_projections dd pop_ids projs polarized cd EL E) as [L G].
-  rewrite rtot_get_sum, L. rewrite (rsum_ext _ _ _ (fun i _ => G i)). rewrite rsum_lsum.
-  induction (map snd dd) as [|s l IH]; cbn [lsum fold_right filter]; [reflexivity|].
-  fold (lsum (fun x => rsum (snp_term pop_ids projs polarized x) (size (spec_shape projs))) l). rewrite IH.
+  rewrite rtot_get_sum, L. rewrite (rsum_ext _ _ _ (fun i _ => G i)). rewrite rsum_lsum. clear G L E.
+  induction (map snd dd) as [|s l IH]; cbn [lsum filter]; [reflexivity|]. rewrite IH.
   rewrite snp_term_total by assumption. destruct (snp_counts pop_ids projs polarized s); cbn [length]; [rewrite S_INR|]; lra. Qed.
 
 (** the folded spectrum (polarized = False) has the same total: folding conserves it (C09) *)
